@@ -26,6 +26,15 @@ def c_cx(rng):
     import spatialpandas as sp
     kind = rng.choice(gen.KINDS)
     cs = gen.case(kind, rng)
+    state = rng.choice(['none', 'built', 'built', 'parent-built'])
+    if state == 'parent-built' and rng.random() < 0.6:
+        # index built on the source, then ONE slice (the derivations after which a stale index could survive):
+        # plain, counted from the end, open-ended or over-long
+        els = gen.elements(kind, rng, n=rng.choice([3, 5, 8]))
+        m = len(els)
+        a = rng.choice([0, 1, -1, -2, -m, -(m - 1)])
+        b = rng.choice([None, None, m, m + 3, m - 1])
+        cs = gen.Case(kind, els, [['slice', a, b, None]])
     n = len(cs.view)
     tb = oracle.total_bounds(kind, cs.view)
     bx = gen.box(rng, positive=True)
@@ -50,7 +59,6 @@ def c_cx(rng):
         return []    # degenerate box: outside the guarantee for line / polygon kinds
     exp = [i for i, el in enumerate(cs.view) if oracle.intersects_bounds(kind, el, eff)]
     out = []
-    state = rng.choice(['none', 'built', 'built', 'parent-built'])
     recipe = dict(cs.recipe, box=[sx.start, sx.stop, sy.start, sy.stop], index_state=state)
     tag = f'{kind_class(kind)}/{region_of(cs.view, kind)}'
     try:
